@@ -7,7 +7,7 @@ import traceback
 
 from vlib import specgen as G, cosim, svsim, svselfcheck
 
-TR_KNOBS = {"widths": [1, 2, 3, 4, 5, 7, 8, 9, 16, 31, 32, 33, 63, 64], "avoid_const_ops": True, "p_freevar": 0.25, "p_tmp": 0.25, "p_lambda": 0.25}
+TR_KNOBS = {"widths": [1, 2, 3, 4, 5, 7, 8, 9, 16, 31, 32, 33, 63, 64], "avoid_const_ops": True, "p_freevar": 0.25, "p_tmp": 0.25, "p_lambda": 0.25, "p_for": 0.6}
 
 
 def random_inputs(rng, cs, reset):
@@ -78,21 +78,19 @@ def judge_text(sh, backend, top, what, src, case, mech_fn, extra_steps=None, ncy
   sh.count("driver_sets_analysed", dr["analysed"]); sh.count("driver_unresolved_dynamic", dr["unresolved"])
   ok = True
   byp = {i.path: i for i in cs.sim.insts}
-  def dual(path, name):
-    """the variable is one of the two forms (packed/array form X, flattened leaf X__i__f) the Yosys backend keeps of one
-    signal: after dropping index components, one name is a `__` prefix of the other"""
-    import re as _re
-    de = lambda n: _re.sub(r"__\d+(?=__|$)", "", n)
+  import re as _re
+  de = lambda n: _re.sub(r"__\d+(?=__|$)", "", n)
+  def is_leaf_form(path, name):
+    """the variable is a flattened leaf X__i__f of a signal whose packed / array form X also exists in the module"""
     dn = de(name)
-    for v in byp[path].vars:
-      if v == name: continue
-      dv = de(v)
-      if dn.startswith(dv + "__") or dv.startswith(dn + "__") or (dv == dn):
-        return True
-    return False
+    return any(v != name and dn.startswith(de(v) + "__") for v in byp[path].vars)
+  def dual(path, name):
+    """leaf form, or packed / array form that has leaf forms"""
+    dn = de(name)
+    return is_leaf_form(path, name) or any(v != name and de(v).startswith(dn + "__") for v in byp[path].vars)
   if dr["multi"]:
     W("variable-with-more-than-one-driver", drivers=[(m[0], m[1], m[4]) for m in dr["multi"]][:4],
-      all_dual_form=all(dual(m[0], m[1]) for m in dr["multi"]), text=text[-3000:]); ok = False
+      all_dual_form=all(is_leaf_form(m[0], m[1]) for m in dr["multi"]), text=text[-3000:]); ok = False
   if dr["undriven"]:
     W("read-or-output-variable-without-driver", variables=dr["undriven"][:6],
       all_dual_form=all(dual(p_, n_) for p_, n_ in dr["undriven"]), text=text[-3000:]); ok = False
